@@ -90,9 +90,12 @@ def _convolve_model_dir_1(model_dir, filters, overwrite=False):
         # Read in SED
         s = SED.read(sed_file, unit_freq=u.Hz, unit_flux=u.mJy, order='nu')
 
-        # Check if filters need to be re-binned
+        # Check if filters need to be re-binned (this has to work when Python
+        # is run with -O, so the test for the first SED cannot be an assert
+        # statement)
         try:
-            assert binned_nu is not None
+            if binned_nu is None:
+                raise ValueError("filters have not been binned yet")
             np.testing.assert_array_almost_equal_nulp(s.nu.value, binned_nu.value, 100)
         except (ValueError, AssertionError):
             log.info('Rebinning filters')
